@@ -41,7 +41,7 @@ class C19(Check):
             "with fresh data sets inside, partly outside or entirely outside the learned range, with or without unlabelled samples. A state "
             "is (learning configuration class, sequence of call kinds with the numbers of classified samples); distinct_nontrivial counts "
             "distinct states after a call")
-    expected_probes = ["call_in_range", "call_partly_out", "all_out_refused", "unlabelled_set_aside", "test_data", "reclassified_earlier_data"]
+    expected_probes = ["user_specified_range", "call_in_range", "call_partly_out", "all_out_refused", "unlabelled_set_aside", "test_data", "reclassified_earlier_data"]
     assumptions = ["ties between maximal densities accept any maximiser (tolerance 1e-12 relative on the densities)",
                    "the in-range test is the library's documented one on the scaled coordinates: 0.0049 <= s <= 0.9951"]
 
@@ -57,7 +57,9 @@ class C19(Check):
                "split": r.choice([1.0, 1.0, 0.7, 0.5]), "even": r.random() < 0.5, "shuffle": r.random() < 0.5,
                "learn": r.choice(["standard", "standard", "dimwise"]), "masslumping": r.random() < 0.5, "lambd": r.choice([0.0, 0.01, 0.1]),
                "lmax": r.choice([2, 2, 3]), "one_vs_others": False, "max_evaluations": r.choice([20, 40, 80]),
-               "rebalancing": r.random() < 0.3, "boundary": r.random() < 0.3}
+               "rebalancing": r.random() < 0.3, "boundary": r.random() < 0.3,
+               # user-specified data range (30 %): per dimension the data's own extreme or a wider bound
+               "user_range": [[r.choice([0.0, 0.0, 0.1, 0.5]), r.choice([0.0, 0.0, 0.1, 0.5])] for _ in range(dim)] if r.random() < 0.3 else None}
         o = stream(rk, "ops")
         ops = []
         for j in range(o.randint(1, 5)):
@@ -68,6 +70,8 @@ class C19(Check):
 
     def simplify(self, s):
         c = s["config"]
+        if c.get("user_range"):
+            n = copy.deepcopy(s); n["config"]["user_range"] = None; yield n
         for key, v in (("unl", 0.0), ("split", 1.0), ("shuffle", False), ("even", False), ("learn", "standard"), ("one_vs_others", False),
                        ("lmax", 2), ("k", 2), ("n", 30), ("masslumping", True), ("lambd", 0.0)):
             if c[key] != v:
@@ -84,8 +88,17 @@ class C19(Check):
         X, y, cent = make_data(c["data_seed"], c["n"], c["dim"], c["k"], unl=c["unl"])
         if len(set(int(v) for v in y if v >= 0)) < 2:
             raise Excluded("fewer than two classes drawn")
-        cl = D.Classification(D.DataSet((X.copy(), y.copy())), split_percentage=c["split"], split_evenly=c["even"], shuffle_data=c["shuffle"],
-                              print_level=100, log_level=100)
+        lab = X[y >= 0]
+        dmin, dmax = lab.min(axis=0), lab.max(axis=0)
+        if c.get("user_range"):
+            lo = dmin - np.array([u[0] for u in c["user_range"]])
+            hi = dmax + np.array([u[1] for u in c["user_range"]])
+            data_range = (lo.copy(), hi.copy())
+            ctx.probe("user_specified_range")
+        else:
+            lo, hi, data_range = dmin, dmax, None
+        cl = D.Classification(D.DataSet((X.copy(), y.copy())), data_range=data_range, split_percentage=c["split"], split_evenly=c["even"],
+                              shuffle_data=c["shuffle"], print_level=100, log_level=100)
         if c["learn"] == "standard":
             cl.perform_classification(masslumping=c["masslumping"], lambd=c["lambd"], minimum_level=1, maximum_level=c["lmax"],
                                       one_vs_others=c["one_vs_others"], print_metrics=False)
@@ -99,8 +112,21 @@ class C19(Check):
             ctx.violate("second_learning_refused", sig, "a second perform_classification on the same object was accepted")
         except ValueError:
             ctx.fault("invalid_request")
-        rmin, rmax = (np.array(v, dtype=float) for v in cl.get_dataset_range())
-        fac = np.array(cl.get_scale_factor(), dtype=float)
+        # the scaling fixed at learning time, derived by the harness from the raw labelled samples / the range it passed,
+        # not from what the object reports
+        rmin, rmax = np.array(lo, dtype=float), np.array(hi, dtype=float)
+        fac = 0.99 / (rmax - rmin)
+        rep_min, rep_max = (np.array(v, dtype=float) for v in cl.get_dataset_range())
+        rep_fac = np.array(cl.get_scale_factor(), dtype=float) * np.ones(c["dim"])
+        if not (np.allclose(rep_min, rmin, rtol=0, atol=1e-9) and np.allclose(rep_max, rmax, rtol=0, atol=1e-9) and np.allclose(rep_fac, fac, rtol=1e-9, atol=0)):
+            ctx.violate("reported_learning_scaling", sig, "get_dataset_range()/get_scale_factor() report [%s, %s] x %s, the learning data was scaled with [%s, %s] x %s" % (
+                rep_min.tolist(), rep_max.tolist(), rep_fac.tolist(), rmin.tolist(), rmax.tolist(), fac.tolist()))
+        # learning samples must sit at their positions under that scaling
+        Xl = np.asarray(cl.get_learning_data().get_data()[0], dtype=float).reshape(-1, c["dim"])
+        Sl_all = (lab - rmin) * fac + 0.005
+        for row in Xl[:10]:
+            if np.min(np.max(np.abs(Sl_all - row), axis=1)) > 1e-9:
+                ctx.violate("learning_data_scaled_with_learning_range", sig, "a learning sample sits at %s, which is no labelled raw sample under the learning-time scaling" % row.tolist())
         clfs, _ = cl.get_density_estimation_results()
         nclass = len(clfs)
 
